@@ -528,7 +528,7 @@ def load_engine(prop: str) -> Any:
 
 
 MAX_KEEP_PER_SIG = 3
-RUN_WATCHDOG_S = 240
+RUN_WATCHDOG_S = 600
 
 
 def _worker(prop: str, base_seed: int, tier: str, indices: List[int], deadline: float, opts: dict) -> dict:
